@@ -468,7 +468,7 @@ func genTTHCase(t *rapid.T) TTHCase {
 func TestC06_Random(t *testing.T) {
 	rec := evid.New("C06", "c06_random", "rapid: header parameter sets (any flags/seq, supported protocol ids, 0..30 int and string entries with empty/short/long/64KiB-scale pattern strings, ACL token, nil vs empty maps, an extra entry solved so that the info size lands on a target in 65500..65560 or 10..80) x payload 0..70000 x 1..3 frames per stream x 3 writers x 2 readers under generated fragmentation; oracle = reference layout parser + round trip; non-trivial = successful round trip with >= 1 info entry and a non-empty payload")
 	defer rec.Flush()
-	runRapid(t, rec, "c06_tth_roundtrip", evid.Pick(20000, 30000), genTTHCase, checkTTHRoundTrip)
+	runRapid(t, rec, "c06_tth_roundtrip", evid.Pick(20000, 150000), genTTHCase, checkTTHRoundTrip)
 }
 
 func TestC06_Exhaustive(t *testing.T) {
@@ -748,7 +748,7 @@ func genTTHFrameCase(t *rapid.T) TTHFrameCase {
 func TestC10_Random(t *testing.T) {
 	rec := evid.New("C10", "c10_random", "rapid: frames built from an explicit structure (0..5 sections of ids 0x01/0x10/0x11 in any order, repeated, with interleaved padding, declared counts lying high/low, optional transforms, any total length/flags/seq, supported and unsupported protocol ids) then one operator: cut at any offset, meta byte (magic, size, protocol, transform count) replaced, structural byte at a section id/count/length mark replaced, size field replaced by a hostile constant, random byte, appended tail, uniform info bytes behind a valid meta; DecodeFromBytes in two guard-page placements, Decode over a bytes reader and over a fragmented stream; non-trivial = valid 14-byte meta and > 16 bytes")
 	defer rec.Flush()
-	runRapid(t, rec, "c10_tth_decode", evid.Pick(50000, 80000), genTTHFrameCase, checkTTHDecode)
+	runRapid(t, rec, "c10_tth_decode", evid.Pick(50000, 300000), genTTHFrameCase, checkTTHDecode)
 }
 
 func TestC10_Exhaustive(t *testing.T) {
